@@ -205,17 +205,18 @@ def run_laws(res: Result, layer, v: Vec, vsys, w: Vec, tier, only=None):
             for asys in L.SYSTEMS[3]:
                 if axn == "z" and asys[1] in ("theta", "eta"):
                     continue
-                for length in (1.0, 2.5):
-                    axis = Vec("axis", tuple(length * c for c in AXV[axn]), set())
+                for length in (1.0, 2.5, -1.0, -0.625):  # both orientations: rotating about -e by a is rotating about e by -a
+                    axis = Vec("axis", tuple(length * c + 0.0 for c in AXV[axn]), set())
                     case = {"spelling": "rotate_axis", "axis": list(axis.comps), "asys": list(asys), "angle": a}
+                    sgn = 1 if length > 0 else -1
 
-                    def f_coord(axis=axis, asys=asys, m=ROT[axn], arg=arg, R=R):
+                    def f_coord(axis=axis, asys=asys, m=ROT[axn], arg=arg, R=R, sgn=sgn):
                         V = W.mk(layer, v, vsys)
                         need_rot(R, gv, vsys)
                         Ax = W.mk(layer, axis, asys)
-                        r1, r2 = V.rotate_axis(Ax, arg), getattr(V, m)(arg)
+                        r1, r2 = V.rotate_axis(Ax, arg), getattr(V, m)(sgn * arg)
                         if not W.vclose(W.cart(r1), W.cart(r2), scale, layer):
-                            return f"rotate_axis({axis.comps}, a) = {W.fmt(W.cart(r1))} but {m}(a) = {W.fmt(W.cart(r2))}"
+                            return f"rotate_axis({axis.comps}, a) = {W.fmt(W.cart(r1))} but {m}({'+' if sgn > 0 else '-'}a) = {W.fmt(W.cart(r2))}"
                         return None
 
                     law("rotate_axis_about_coordinate_axis", f"axis:{L.sysname(asys)}", f_coord, case)
